@@ -55,8 +55,8 @@ func runC03(c *engine.Ctx) {
 	r2 := c.Rule("R2", "metadata action is Missing exactly when the operation has no data", 1)
 	r3 := c.Rule("R3", "block bytes only under the send flag, from the operation's own data and link", 1)
 	r4 := c.Rule("R4", "send flag = present AND past skip count AND not already in use", 1)
-	r5 := c.Rule("R5", "status table: full/partial from the missing-link record; nil -> finish; first-block-load -> content-not-found, produced exactly when nothing was traversed and the traversal was skipped", 4)
-	r6 := c.Rule("R6", "extension wiring: (name, decoder, setter) triples; dedup key applied before the ignore list", 4)
+	r5 := c.Rule("R5", "status table: full/partial from the missing-link record; nil -> finish; first-block-load -> content-not-found, produced exactly when nothing was traversed and the traversal was skipped", 2)
+	r6 := c.Rule("R6", "extension wiring: (name, decoder, setter) triples; dedup key applied before the ignore list", 3)
 	r7 := c.Rule("R7", "every load is followed by the send step for the same link and data", 1)
 
 	ra := "responsemanager/responseassembler"
@@ -372,10 +372,11 @@ func c03Extensions(c *engine.Ctx, rule string) {
 			ignoreFn = u.fn
 		}
 	}
-	// order: dedup key before ignore list, in their common caller
+	// order: dedup key before ignore list, in their common caller (static calls: dominance; function table: index order)
 	if dedupFn != nil && ignoreFn != nil {
-		ordered := false
+		decided, ordered := false, false
 		var at token.Pos
+		how := ""
 		for _, f := range fns {
 			var d, i ssa.Instruction
 			for _, ci := range engine.Calls(f) {
@@ -388,11 +389,39 @@ func c03Extensions(c *engine.Ctx, rule string) {
 			}
 			if d != nil && i != nil {
 				at = i.Pos()
-				ordered = engine.Before(d, i)
+				decided, ordered, how = true, engine.Before(d, i), "static calls in "+engine.FuncName(f)
 			}
 		}
-		c.Decide(rule, "order|DedupKey-before-IgnoreBlocks", at, ordered, "the dedup key is applied before the ignore list (so the list lands in the tracker the request will use)",
-			"the ignore list is applied before the dedup key: it is recorded in the peer-wide tracker while the request then runs against its own key's tracker, so the listed blocks are sent anyway")
+		if !decided {
+			// called through a package-level table ranged over in order
+			for _, f := range fns {
+				for _, ci := range engine.Calls(f) {
+					if ci.Static != nil || ci.Common.IsInvoke() {
+						continue
+					}
+					tab := engine.FuncTableTargets(ci.Common.Value)
+					di, ii := -1, -1
+					for k, t := range tab {
+						if t == dedupFn {
+							di = k
+						}
+						if t == ignoreFn {
+							ii = k
+						}
+					}
+					if di >= 0 && ii >= 0 {
+						at = ci.Instr.Pos()
+						decided, ordered, how = true, di < ii, "function table iterated in "+engine.FuncName(f)
+					}
+				}
+			}
+		}
+		if !decided {
+			c.Undecided(rule, "order|DedupKey-before-IgnoreBlocks", at, "cannot establish the order in which the dedup-key and ignore-list steps run (neither static calls in one function nor a package-level function table)")
+		} else {
+			c.Decide(rule, "order|DedupKey-before-IgnoreBlocks", at, ordered, "the dedup key is applied before the ignore list (so the list lands in the tracker the request will use) — "+how,
+				"the ignore list is applied before the dedup key ("+how+"): it is recorded in the peer-wide tracker while the request then runs against its own key's tracker, so the listed blocks are sent anyway")
+		}
 	}
 }
 
